@@ -706,3 +706,4 @@ PROPS["C06"] = [h for h in PROPS["C06"] if not h.name.endswith("c06_step_rto500_
 _C13_DROP = ("p023", "p204", "p305", "p450", "p112", "p034", "p501", "p345", "p432")
 PROPS["C13"] = [h for h in PROPS["C13"] if not h.name.endswith(_C13_DROP)]
 PROPS["C07"] = [h for h in PROPS["C07"] if not h.name.endswith(_C13_DROP)]
+DESCR["C14"]["technique"] = "bounded model checking of the real Rust code (Kani/CBMC, SAT verdict over all inputs within the stated bounds) for buffers <= 48 bytes; MIR -> SMT bit-vector encoding of the encoder's length arithmetic (z3, cross-checked with cvc5, native replay) for the 64 KiB limit"
